@@ -23,12 +23,15 @@ def case(g, tier, ci):
     P = r.randint(1, 3)
     N = r.choice([2399, 2400, 2400, 2401, 2600])
     amps = {ch: r.choice([0.5, 1, 2, 4.5]) for ch in chans}
-    boundary = r.random() < 0.3
+    boundary = r.random() < 0.45
     ops = [{"op": "sq.new", "id": "s"}, {"op": "sq.setSR", "id": "s", "v": enc(SR)}]
     if r.random() < 0.5:
         ops.append({"op": "sq.setName", "id": "s", "name": r.choice(["myseq", "x", ""])})
     fp = r.choice([0.0, 0.5, 1.0])
-    for p in range(1, P + 1):
+    adding = list(range(1, P + 1))
+    if r.random() < 0.3:
+        r.shuffle(adding)       # positions may be filled in any order
+    for p in adding:
         eid = g.fresh("e")
         order = r.sample(chans, len(chans))
         if boundary:
@@ -36,7 +39,16 @@ def case(g, tier, ci):
             for ch in order:
                 a = amps[ch]
                 k = r.random()
-                levels.append(r.choice([-1, 1]) * (a / 2 * r.choice([0.5, 0.0]) if k < 0.5 else (a / 2 if k < 0.8 else a / 2 + 2.0 ** -20)))
+                other = [amps[c] for c in chans if c != ch]
+                if k < 0.4:
+                    lv = a / 2 * r.choice([0.5, 0.0])
+                elif k < 0.65:
+                    lv = a / 2
+                elif k < 0.8 or not other:
+                    lv = a / 2 + 2.0 ** -20
+                else:
+                    lv = r.choice(other) / 2 * r.choice([1, 0.75])     # in range for another channel, maybe not for this one
+                levels.append(r.choice([-1, 1]) * lv)
             ops += level_element(g, eid, SR, N, order, levels)
             for ch in order:
                 if r.random() < fp:
